@@ -40,6 +40,18 @@ fn base_of(kind: &str) -> (String, V) {
     }
 }
 
+/// A value equal to `base_of(kind)` that is built at run time by the thread
+/// that evaluates the expression (so that thread owns it).
+fn fresh_of(kind: &str) -> &'static str {
+    match kind {
+        "hash" => "(hash-insert (hash 0 10 1 11) 2 12)",
+        "set" => "(hashset-insert (hashset 1 2) 3)",
+        "vec" => "(immutable-vector-push (immutable-vector 1 2) 3)",
+        "list" => "(cons 1 (list 2 3))",
+        _ => "(string-append \"ab\" \"c\")",
+    }
+}
+
 fn query(kind: &str, var: &str) -> String {
     match kind {
         "hash" => format!("(map (lambda (k) (if (hash-contains? {v} k) (hash-ref {v} k) -1)) '(0 1 2 3 4 5))", v = var),
@@ -160,7 +172,19 @@ fn gen_workload(rng: &mut Rng, thorough: bool) -> Value {
         threads.push(json!({"ops": ops}));
     }
     let share = *rng.pick(&["global", "global", "closure", "box"]);
-    json!({"jit": jit, "gc": [*rng.pick(&[0u64, 0, 1]), *rng.pick(&[4u64, 16])], "kinds": kinds, "threads": threads, "share": share})
+    // hand-offs: main builds a value, other threads take their own reference to
+    // it, main gives up every reference but one and updates (or drops) that one
+    let mut handoffs = Vec::new();
+    for i in 0..rng.below(3) {
+        handoffs.push(json!({
+            "kind": *rng.pick(KINDS),
+            "op": [*rng.pick(&["insert", "insert", "remove", "union", "front"]), rng.below(8), 70 + i as i64 + rng.below(20) as i64],
+            "clones": rng.range(1, 2),
+            "drop": rng.chance(1, 4),
+            "wrap": if rng.chance(1, 3) { rng.range(1, 13) } else { 0 },
+        }));
+    }
+    json!({"handoffs": handoffs, "jit": jit, "gc": [*rng.pick(&[0u64, 0, 1]), *rng.pick(&[4u64, 16])], "kinds": kinds, "threads": threads, "share": share})
 }
 
 /// The update sits in some syntactic context that decides nothing (the branch
@@ -298,8 +322,60 @@ fn build(w: &Value) -> Built {
         finals.push(query(k, &base_ref(k)));
         fexp.push(render(&bases[k]));
     }
-    src.push_str(&format!("(list main-result (list{}) (list {}))\n", joins, finals.join(" ")));
-    let expect = format!("({} ({}) ({}))", expects[0], expects[1..].join(" "), fexp.join(" "));
+    let mut hcalls: Vec<String> = Vec::new();
+    let mut hexp: Vec<String> = Vec::new();
+    let handoffs = w["handoffs"].as_array().cloned().unwrap_or_default();
+    if !handoffs.is_empty() {
+        src.push_str("(define hbox (box #f))\n(define h-ack (channels/new))\n(define h-go (channels/new))\n");
+    }
+    for (i, h) in handoffs.iter().enumerate() {
+        let kind = h["kind"].as_str().unwrap_or("hash");
+        let clones = h["clones"].as_u64().unwrap_or(1).clamp(1, 2) as usize;
+        let (_, fresh_model) = base_of(kind);
+        let taker = format!(
+            "(spawn-native-thread (lambda () (let ((mine (unbox hbox))) (channel/send (channels-sender h-ack) 1) (channel/recv (channels-receiver h-go)) {})))",
+            query(kind, "mine")
+        );
+        let takers: Vec<String> = (0..clones).map(|c| format!("(tk{} {})", c, taker)).collect();
+        let acks: String = (0..clones).map(|_| "(channel/recv (channels-receiver h-ack))".to_string()).collect::<Vec<_>>().join(" ");
+        let gos: String = (0..clones).map(|_| "(channel/send (channels-sender h-go) 1)".to_string()).collect::<Vec<_>>().join(" ");
+        let joins_h: String = (0..clones).map(|c| format!("(thread-join! tk{})", c)).collect::<Vec<_>>().join(" ");
+        if h["drop"].as_bool().unwrap_or(false) {
+            // main's only reference goes away without an update
+            src.push_str(&format!(
+                "(define (handoff-{i}-a) (let ((hv {fresh})) (set-box! hbox hv) (let* ({takers}) {acks} (set-box! hbox #f) (list {tks}))))\n(define (handoff-{i}) (let ((ts (handoff-{i}-a))) {gos} (map thread-join! ts)))\n",
+                i = i,
+                fresh = fresh_of(kind),
+                takers = takers.join(" "),
+                acks = acks,
+                tks = (0..clones).map(|c| format!("tk{}", c)).collect::<Vec<_>>().join(" "),
+                gos = gos
+            ));
+            hexp.push(format!("({})", (0..clones).map(|_| render(&fresh_model)).collect::<Vec<_>>().join(" ")));
+        } else {
+            let (upd, upd_model) = apply(kind, &h["op"], "hv", &fresh_model);
+            let upd = wrap(h["wrap"].as_u64().unwrap_or(0), &upd, "hv");
+            src.push_str(&format!(
+                "(define (handoff-{i}) (let ((hv {fresh})) (set-box! hbox hv) (let* ({takers}) {acks} (set-box! hbox #f) (let ((hu {upd})) {gos} (list {q} {joins})))))\n",
+                i = i,
+                fresh = fresh_of(kind),
+                takers = takers.join(" "),
+                acks = acks,
+                upd = upd,
+                gos = gos,
+                q = query(kind, "hu"),
+                joins = joins_h
+            ));
+            let mut parts = vec![render(&upd_model)];
+            for _ in 0..clones {
+                parts.push(render(&fresh_model));
+            }
+            hexp.push(format!("({})", parts.join(" ")));
+        }
+        hcalls.push(format!("(handoff-{})", i));
+    }
+    src.push_str(&format!("(list main-result (list{}) (list {}) (list {}))\n", joins, finals.join(" "), hcalls.join(" ")));
+    let expect = format!("({} ({}) ({}) ({}))", expects[0], expects[1..].join(" "), fexp.join(" "), hexp.join(" "));
     Built { src, expect }
 }
 
